@@ -133,7 +133,10 @@ class Inliner:
             for st in body:
                 if isinstance(st, (ast.FunctionDef,)):
                     qn = prefix + st.name
-                    if _is_private(st.name) and qn not in self.base and _only_memo_decorators(st) and _simple_params(st) is not None:
+                    # a helper that did not exist in the reference tree: private by name, or a (non-dunder) method of a
+                    # class of the reference tree - a step of an existing method that was given a name of its own
+                    helper_name = _is_private(st.name) or (cls is not None and not st.name.startswith("__") and bool(self.base))
+                    if helper_name and qn not in self.base and _only_memo_decorators(st) and _simple_params(st) is not None:
                         if not any(isinstance(x, (ast.Yield, ast.YieldFrom, ast.Await)) for x in ast.walk(st)):
                             kind = "method" if cls is not None else ("nested" if parent is not None else "func")
                             self.candidates[(kind, cls, parent, st.name)] = (st, qn)
@@ -259,10 +262,22 @@ class Inliner:
                 return None
             prelude, body = self._instantiate(helper, bound)
             last = body.pop()
+            self.inlined.append(qn)
+            # `a, b = helper(..)` with `return x, y`: one assignment per target when no right-hand side reads a target
+            tgt = st.targets[0] if len(st.targets) == 1 else None
+            if isinstance(tgt, (ast.Tuple, ast.List)) and isinstance(last.value, ast.Tuple) and len(tgt.elts) == len(last.value.elts) and all(isinstance(t, ast.Name) for t in tgt.elts) and not any(isinstance(v, ast.Starred) for v in last.value.elts):
+                tnames = {t.id for t in tgt.elts}
+                if not any(isinstance(x, ast.Name) and x.id in tnames for v in last.value.elts for x in ast.walk(v)):
+                    outs = []
+                    for t, v in zip(tgt.elts, last.value.elts):
+                        a1 = ast.Assign(targets=[copy.deepcopy(t)], value=v)
+                        ast.copy_location(a1, st)
+                        ast.fix_missing_locations(a1)
+                        outs.append(a1)
+                    return prelude + body + outs
             asg = ast.Assign(targets=[copy.deepcopy(t) for t in st.targets], value=last.value)
             ast.copy_location(asg, st)
             ast.fix_missing_locations(asg)
-            self.inlined.append(qn)
             return prelude + body + [asg]
         if ctxkind == "expr":
             if any(r.value is not None for r in rets):
@@ -370,8 +385,75 @@ class Inliner:
         return self.tree, sorted(set(self.inlined))
 
 
+def _stores(fn):
+    """name -> number of binding occurrences in fn (nested functions not entered)"""
+    out = {}
+    stack = list(fn.body)
+    while stack:
+        n = stack.pop()
+        if isinstance(n, (ast.FunctionDef, ast.AsyncFunctionDef, ast.Lambda, ast.ClassDef)):
+            continue
+        if isinstance(n, ast.Name) and isinstance(n.ctx, (ast.Store, ast.Del)):
+            out[n.id] = out.get(n.id, 0) + 1
+        stack.extend(ast.iter_child_nodes(n))
+    return out
+
+
+def _stable(e, params):
+    """an expression that reads only parameters, attributes of them and constants (no call, no local)"""
+    for x in ast.walk(e):
+        if isinstance(x, ast.Name) and x.id not in params:
+            return False
+        if isinstance(x, (ast.Call, ast.Subscript, ast.Await, ast.Yield, ast.YieldFrom, ast.NamedExpr)):
+            return False
+    return True
+
+
+def _rename(fn, old, new):
+    for x in ast.walk(fn):
+        if isinstance(x, ast.Name) and x.id == old:
+            x.id = new
+
+
+def merge_temporaries(fn):
+    """After splicing, a caller's local and the helper's temporary often hold the same thing twice:
+    `x = x__inl1` (the helper's result handed back) and `y__inl1 = <the very expression y is defined by>`.
+    Both are folded when every name involved is bound exactly once, so the structure rules see one variable."""
+    params = {a.arg for a in fn.args.posonlyargs + fn.args.args + fn.args.kwonlyargs}
+    changed = True
+    while changed:
+        changed = False
+        stores = _stores(fn)
+        for i, st in enumerate(list(fn.body)):
+            if not (isinstance(st, ast.Assign) and len(st.targets) == 1 and isinstance(st.targets[0], ast.Name)):
+                continue
+            tgt, val = st.targets[0].id, st.value
+            # (1) x = x__inlN : the temporary is the variable
+            if isinstance(val, ast.Name) and "__inl" in val.id and "__inl" not in tgt and stores.get(tgt) == 1 and stores.get(val.id) == 1 and tgt not in params:
+                fn.body.remove(st)
+                _rename(fn, val.id, tgt)
+                changed = True
+                break
+            # (2) y__inlN = E where an earlier top-level statement binds y = E (E stable)
+            if "__inl" in tgt and stores.get(tgt) == 1 and _stable(val, params):
+                base = tgt.split("__inl")[0]
+                for prev in fn.body[:i]:
+                    if isinstance(prev, ast.Assign) and len(prev.targets) == 1 and isinstance(prev.targets[0], ast.Name) and prev.targets[0].id == base and stores.get(base) == 1 and ast.dump(prev.value) == ast.dump(val):
+                        fn.body.remove(st)
+                        _rename(fn, tgt, base)
+                        changed = True
+                        break
+                if changed:
+                    break
+
+
 def inline_new_helpers(modname, tree):
-    return Inliner(modname, tree).run()
+    tree, inlined = Inliner(modname, tree).run()
+    if inlined:
+        for fn in ast.walk(tree):
+            if isinstance(fn, (ast.FunctionDef, ast.AsyncFunctionDef)):
+                merge_temporaries(fn)
+    return tree, inlined
 
 
 # ---------------------------------------------------------------------------------------------- alias propagation
